@@ -46,6 +46,9 @@ pub use sys::{op, *};
 mod cancel;
 pub use cancel::*;
 
+#[cfg(compio_verif)]
+pub mod verif;
+
 mod buffer_pool;
 pub use buffer_pool::{BoxAllocator, BufferAllocator, BufferPool, BufferRef};
 
